@@ -679,6 +679,21 @@ func (env *SpecEnv) evalCall(x *SCall) Val {
 			return ArrV{T: arr}
 		}
 		return ArrV{T: App("ashift", ArrSort(SInt), arr, off)}
+	case "dbmap":
+		// dbmap(d): the ghost key/value content of database d
+		argn(1)
+		d, ok := env.eval(x.Args[0]).(Sc)
+		if !ok || d.T.Sort != "Iface" {
+			env.fail("dbmap() of a non-database value")
+		}
+		return MapV{M: in.dbCell(d.T), Nil: TFalse}
+	case "dbhealthy":
+		argn(1)
+		d, ok := env.eval(x.Args[0]).(Sc)
+		if !ok || d.T.Sort != "Iface" {
+			env.fail("dbhealthy() of a non-database value")
+		}
+		return Sc{in.dbHealthy(d.T)}
 	case "hexenc", "hexdec":
 		argn(1)
 		in.declareHex()
